@@ -536,6 +536,8 @@ def replay(case):
         item = ("mass", (case["how"], case["n"])) if case["scale"] == "mass" else ("sibling-replace", case["n"])
         a = scale_work(item)
         return [p for ps in a.problems.values() for p in ps]
+    if "history" not in case:
+        return []           # (a problem recorded without its history cannot be re-executed alone; the block re-run decides)
     try:
         w = replay_history(case["history"])
     except PrefixFailed as e:
